@@ -25,6 +25,7 @@ type vfC04Case struct {
 	BulkN      int
 	BulkSeed   uint64
 	DupOf      int
+	DupDiff    bool // the duplicate carries another value
 	Reverse    bool
 	Shape      string
 }
@@ -81,7 +82,7 @@ func vfBuild(dir string, c *vfC04Case, keys [][]byte, vals []uint64, order []int
 		}
 	}
 	if c.DupOf >= 0 && c.DupOf < len(keys) {
-		if err := b.Insert(keys[c.DupOf], vf36(vals[c.DupOf])); err != nil {
+		if err := b.Insert(keys[c.DupOf], vf36(vfDupVal(c, vals))); err != nil {
 			return nil, fmt.Errorf("Insert(dup): %w", err)
 		}
 	}
@@ -95,6 +96,18 @@ func vfBuild(dir string, c *vfC04Case, keys [][]byte, vals []uint64, order []int
 		return nil, fmt.Errorf("Seal: %w", err)
 	}
 	return os.ReadFile(fp)
+}
+
+// vfDupVal is the value inserted with the duplicate key: the same value, or (DupDiff) another representable one.
+func vfDupVal(c *vfC04Case, vals []uint64) uint64 {
+	v := vals[c.DupOf]
+	if !c.DupDiff {
+		return v
+	}
+	if v > 0 {
+		return v - 1
+	}
+	return 1
 }
 
 func vfEval(c *vfC04Case) (sealed bool, nb int, verr error) {
@@ -138,6 +151,9 @@ func vfEval(c *vfC04Case) (sealed bool, nb int, verr error) {
 			return false, nb, fmt.Errorf("supported key set (n=%d) failed to build: %v", n, err)
 		}
 		return false, nb, nil
+	}
+	if c.DupOf >= 0 && c.DupDiff {
+		return true, nb, fmt.Errorf("key #%d was inserted twice with two different values and Seal returned nil (n=%d, declared=%d): one of the two values is lost", c.DupOf, n, c.Declared)
 	}
 	check := func(raw []byte, tag string) error {
 		db, err := Open(bytes.NewReader(raw))
@@ -230,7 +246,19 @@ func vfGen(t *rapid.T) *vfC04Case {
 	case "declared-high":
 		c.Declared = rapid.SampledFrom([]int{len(c.Keys) * 3, 10001, 25000}).Draw(t, "decl")
 	case "dup":
+		switch rapid.IntRange(0, 3).Draw(t, "dupKind") {
+		case 1:
+			k := min(len(c.Keys), rapid.IntRange(1, 3).Draw(t, "dupN"))
+			c.Keys, c.Vals = c.Keys[:k], c.Vals[:k]
+		case 2:
+			c.Declared = rapid.SampledFrom([]int{10001, 25000, 60000}).Draw(t, "dupDeclared")
+		case 3:
+			k := min(len(c.Keys), rapid.IntRange(1, 3).Draw(t, "dupN"))
+			c.Keys, c.Vals = c.Keys[:k], c.Vals[:k]
+			c.Declared = len(c.Keys) * rapid.IntRange(1, 20).Draw(t, "dupDeclMul")
+		}
 		c.DupOf = rapid.IntRange(0, len(c.Keys)-1).Draw(t, "dupOf")
+		c.DupDiff = rapid.IntRange(0, 3).Draw(t, "dupDiff") > 0
 	case "key64k":
 		c.Keys[0] = vfDerive(1, 1, rapid.SampledFrom([]int{65535, 65536, 65537, 70000}).Draw(t, "k64"))
 	case "bulk":
